@@ -41,7 +41,7 @@ def register(w):
         params={"source": Tup(Bool, Int), "target": Tup(Bool, Int)},
         requires=[("bits_pos", lambda c: z3.And(c["source"].items[1].term >= 1, c["target"].items[1].term >= 1))],
         ensures=[("range_included", post_int_int)],
-        raises=set(), ret=Bool, props=["C17"],
+        raises=set(), ret=Bool, props=["C17", "C02"],
     ))
 
     # ---- _integer_domain_fits_float
@@ -57,7 +57,7 @@ def register(w):
         params={"source": Tup(Bool, Int), "target": Tup(Int, Int, Int)},
         requires=[("sane", lambda c: z3.And(c["source"].items[1].term >= 1, c["target"].items[0].term >= 1, c["target"].items[2].term >= 0))],
         ensures=[("largest_magnitude_representable", post_int_float)],
-        raises=set(), ret=Bool, props=["C17"],
+        raises=set(), ret=Bool, props=["C17", "C02"],
     ))
 
     # ---- _float_domain_fits_float
@@ -72,7 +72,7 @@ def register(w):
         params={"source": Tup(Int, Int, Int), "target": Tup(Int, Int, Int)},
         requires=[("sane", lambda c: z3.And(c["source"].items[0].term >= 1, c["source"].items[2].term >= 0, c["target"].items[0].term >= 1, c["target"].items[2].term >= 0))],
         ensures=[("value_set_included", post_float_float)],
-        raises=set(), ret=Bool, props=["C17"],
+        raises=set(), ret=Bool, props=["C17", "C02"],
     ))
 
     # ---- format tables against the spec table
@@ -99,13 +99,13 @@ def register(w):
         f"{M}:_standard_float_format", params={"dtype": Enum("DataType")},
         requires=[("valid", lambda c: valid_code(c["dtype"].term))],
         ensures=[("equals_ieee_table", post_fmt(("float",)))],
-        raises=set(), ret=Opt(Tup(Int, Int, Int)), props=["C17"],
+        raises=set(), ret=Opt(Tup(Int, Int, Int)), props=["C17", "C02"],
     ))
     w.add_contract(Contract(
         f"{M}:_complex_component_format", params={"dtype": Enum("DataType")},
         requires=[("valid", lambda c: valid_code(c["dtype"].term))],
         ensures=[("equals_ieee_table", post_fmt(("complex",)))],
-        raises=set(), ret=Opt(Tup(Int, Int, Int)), props=["C17"], inline_callees=True,
+        raises=set(), ret=Opt(Tup(Int, Int, Int)), props=["C17", "C02"], inline_callees=True,
     ))
 
     int_rows = {k: v[1] for k, v in D.ONNX.items() if isinstance(v[1], tuple) and v[1][0] == "int"}
@@ -123,7 +123,7 @@ def register(w):
         f"{M}:_integer_format", params={"dtype": Enum("DataType")},
         requires=[("valid", lambda c: valid_code(c["dtype"].term))],
         ensures=[("equals_onnx_int_table", post_int_fmt)],
-        raises=set(), ret=Opt(Tup(Bool, Int)), props=["C17"],
+        raises=set(), ret=Opt(Tup(Bool, Int)), props=["C17", "C02"],
     ))
 
     def post_bounds(c: Ctx):
@@ -138,7 +138,7 @@ def register(w):
     w.add_contract(Contract(
         f"{M}:_integer_dtype_bounds", params={"dtype_code": Int},
         ensures=[("equals_onnx_int_range", post_bounds)],
-        raises=set(), ret=Opt(Tup(Int, Int)), props=["C17"], inline_callees=True,
+        raises=set(), ret=Opt(Tup(Int, Int)), props=["C17", "C02"], inline_callees=True,
     ))
 
     # ---- the decision procedure, inlining the helpers (real bodies)
@@ -159,7 +159,7 @@ def register(w):
         f"{M}:_cast_roundtrip_is_value_preserving",
         params={"source_dtype": Int, "intermediate_dtype": Int},
         ensures=[("accepted_pairs_preserve_every_value", post_preserving)],
-        raises=set(), ret=Bool, props=["C17"], inline_callees=True, replay=replay_preserving,
+        raises=set(), ret=Bool, props=["C17", "C02"], inline_callees=True, replay=replay_preserving,
     ))
     register_graph_level(w)
 
@@ -187,7 +187,7 @@ def register_graph_level(w):
         params={"nodes": Seq(Ref(NODE)), "value": Ref(VALUE), "seen": Opt(SetT(Int))},
         requires=[("axiom:onnx_semantics", sem_axioms)],
         ensures=[("every_runtime_element_equals_result", post_scalar)],
-        raises=set(), ret=Opt(Int), props=["C17"], witnesses=["C17_range_bounds_family"],
+        raises=set(), ret=Opt(Int), props=["C17", "C02"], witnesses=["C17_range_bounds_family"],
     ))
 
     def post_bounds(c: Ctx):
@@ -203,7 +203,7 @@ def register_graph_level(w):
         params={"nodes": Seq(Ref(NODE)), "value": Ref(VALUE), "seen": Opt(SetT(Int))},
         requires=[("axiom:onnx_semantics", sem_axioms)],
         ensures=[("every_runtime_element_within_bounds", post_bounds)],
-        raises=set(), ret=Opt(Tup(Int, Int)), props=["C17"], witnesses=["C17_range_bounds_family"],
+        raises=set(), ret=Opt(Tup(Int, Int)), props=["C17", "C02"], witnesses=["C17_range_bounds_family"],
     ))
 
     int_rows = {k: v[1] for k, v in D.ONNX.items() if isinstance(v[1], tuple) and v[1][0] == "int"}
@@ -221,5 +221,5 @@ def register_graph_level(w):
         params={"nodes": Seq(Ref(NODE)), "source": Ref(VALUE), "source_dtype": Int, "intermediate_dtype": Int},
         requires=[("axiom:onnx_semantics", sem_axioms)],
         ensures=[("every_runtime_element_fits_intermediate_type", post_fit)],
-        raises=set(), ret=Bool, props=["C17"], witnesses=["C17_range_bounds_family"],
+        raises=set(), ret=Bool, props=["C17", "C02"], witnesses=["C17_range_bounds_family"],
     ))
